@@ -232,7 +232,7 @@ def pcm_call(c):
 
 canary('union replaced by the universe only', PCM, '_obtain_full_asset_list',
        'set(broker_assets).union(set(universe_assets))', 'set(universe_assets)')(pcm_call)
-canary('zero-quantity orders emitted', PCM, '_generate_rebalance_orders', "if rebalance_portfolio[asset]['quantity'] != 0", 'if True')(pcm_call)
+canary('zero-quantity orders emitted', PCM, '_generate_rebalance_orders', 'if rebalance_portfolio[asset]["quantity"] != 0', 'if True')(pcm_call)
 canary('current minus target', PCM, '_generate_rebalance_orders', 'order_qty = target_qty - current_qty', 'order_qty = current_qty - target_qty')(pcm_call)
 canary('orders not sorted', PCM, '_generate_rebalance_orders', 'sorted(\n                rebalance_portfolio.items(), key=lambda x: x[0]\n            )', 'rebalance_portfolio.items()')(pcm_call)
 canary('allocation row from optimiser weights only', PCM, '__call__', 'alloc_dict.update(full_weights)', 'alloc_dict.update(optimised_weights)')(pcm_call)
